@@ -398,6 +398,12 @@ func (g *gen) freshValueType(extOnly bool, label string) TypeID {
 		if g.allow("composite") {
 			g.c.AddFeature("composite")
 			s := g.newStruct("", false)
+			if g.allow("ext") && rapid.IntRange(0, 99).Draw(g.rt, "compext") < 30 {
+				// composite type whose only mention of the external package is inside it
+				g.c.AddFeature("ext")
+				g.c.AddFeature("composite-over-ext")
+				s = g.newStruct(g.ensureExt().Key, false)
+			}
 			if rapid.Bool().Draw(g.rt, "compptr") {
 				s = g.addType(Type{Kind: KPtr, Elem: s})
 			}
